@@ -5,6 +5,7 @@ CONSTANTS
   SkipFix = TRUE
   CctFix = TRUE
   SelfFailFix = TRUE
+  FlushFix = TRUE
   QMax = 2
   PPInterval = 2
   TestMode = TRUE
